@@ -830,6 +830,16 @@ func main() {
 		if tier == "thorough" {
 			runs, secs = b.Thorough, b.ThoroughSecs
 		}
+		if sc := os.Getenv("VERIF_BUDGET_SCALE"); sc != "" {
+			// scales the tier's budget (used for validation sweeps of the thorough tier)
+			if f, err := strconv.ParseFloat(sc, 64); err == nil && f > 0 {
+				runs = int(float64(runs) * f)
+				secs *= f
+				if runs < 16 {
+					runs = 16
+				}
+			}
+		}
 		if runsOverride > 0 {
 			runs = runsOverride
 		}
